@@ -457,9 +457,13 @@ func (e *Engine) applyHavoc(h *havocSet, st *State) {
 }
 
 func (e *Engine) havocFields(st *State, b VTerm) {
-	s, _ := structOf(b.Typ)
+	s, sname := structOf(b.Typ)
 	if s == nil {
 		return
+	}
+	if sname == "Bst" {
+		// ghost abstract state of the search tree: multiset of its values (value -> multiplicity)
+		st.mem["bst:"+b.T.String()] = e.fresh("bcount", arraySortK(SReal, SInt))
 	}
 	for i := 0; i < s.NumFields(); i++ {
 		f := s.Field(i)
